@@ -1,1 +1,31 @@
-fn main() { eprintln!("engine not built yet"); std::process::exit(2); }
+//! probe (to be replaced)
+use graphql_network_protocol::GraphQLAndJavascriptProfile;
+use intern::string_key::Intern;
+use isograph_compiler::CompilerState;
+use isograph_config::create_config;
+use std::path::PathBuf;
+
+fn main() {
+    let args: Vec<String> = std::env::args().collect();
+    let config_path = PathBuf::from(&args[1]);
+    let cwd = std::env::current_dir().unwrap();
+    let cwd = cwd.to_str().unwrap().intern().into();
+    let config = create_config(&config_path, cwd);
+    let state = CompilerState::<GraphQLAndJavascriptProfile>::new(config, cwd).unwrap_or_else(|e| panic!("{}", e));
+    let (result, lines) = artifact_content::verif::verif_generate_and_dump(&state.db);
+    match result {
+        Ok((artifacts, _)) => {
+            for a in artifacts.iter() {
+                let p = match a.artifact_path.type_and_field {
+                    Some(tf) => format!("{}/{}/{}", tf.parent_entity_name, tf.selectable_name, a.artifact_path.file_name),
+                    None => a.artifact_path.file_name.to_string(),
+                };
+                eprintln!("artifact {} {}", p, a.file_content.len());
+            }
+        }
+        Err(e) => { for d in e.iter() { eprintln!("DIAG {}", d.printable(state.db.print_location_fn(true))); } }
+    }
+    for l in lines {
+        println!("{}", l);
+    }
+}
